@@ -136,6 +136,15 @@ def run(rep, work, tier, seed, only=None):
                           % (h['cls'], tuple(h['size']), h['ops'], exp),
                           {'instance': key, 'history': h['ops'], 'choices': h['choices'], 'expected_fresh': exp,
                            'equals_fresh_candidates': h['matches']})
+    for ad in hist.get('apply_deformation', []):
+        rep.case(('apply_deformation', ad['cls'], tuple(ad['size']), ad['name'], ad['axis']), ad['n_flagged'] > 0)
+        rep.count('apply_deformation')
+        if ad['bad']:
+            key = {'cls': ad['cls'], 'size': 'x'.join(map(str, ad['size'])), 'deformation': ad['name'], 'axis': ad['axis'] or 'default',
+                   'site': 'bpauli.apply_deformation'}
+            rep.violation(key, '%s%s %s axis=%s: bpauli.apply_deformation with the flags given as %s does not map the undeformed %s to '
+                          'the deformed one' % (ad['cls'], tuple(ad['size']), ad['name'], ad['axis'], ad['bad'][0][0], ad['bad'][0][1]),
+                          {'instance': key, 'flags_form': ad['bad'][0][0], 'what': ad['bad']})
     for nz in hist['noise']:
         rep.case(('noise', nz['cls'], tuple(nz['size']), nz['name'], nz['axis'], tuple(nz['direction']), nz['p']), True)
         rep.count('noise')
